@@ -114,3 +114,16 @@ Definition chk_sched_first (gpus : list xgpu) (spread : bool) (np : Z) (tbl : li
   let mp := mp_of tbl d in
   Bool.eqb full (match pick_full gpus spread np mp o with Some _ => true | None => false end) &&
   chk_choice o mp (Some (sched_first gpus spread np mp o)) (Some obs_res) est.
+
+(** CPU branch: observed action (Some p = loadFn was called with parallel p and NumCtx = orig * [mult]; None = a runner was
+    sent to expire) and the estimate of the loaded configuration *)
+Definition chk_sched_cpu (loaded : nat) (g : xgpu) (np_env : Z) (emb : bool) (tbl : list (Z * model)) (d : model) (o : opts)
+           (act : option (Z * Z)) (est : option obs) : bool :=
+  let mp := mp_of tbl d in
+  match sched_cpu loaded g np_env emb mp o, act with
+  | CpuEvict, None => true
+  | CpuLoad p, Some (p', mult) =>
+    (p =? p')%Z && (mult =? p)%Z &&
+    match est with Some ob => same (plan_for [g] (mp p) o) ob | None => false end
+  | _, _ => false
+  end.
